@@ -35,8 +35,10 @@ CLOCKS = {
     'newyear-2025': 1735689600,        # 2025-01-01 00:00:00
     'apr30-2027': 1809086400,          # 2027-04-30 12:00:00 (last day of a 30-day month)
     'y9998': 253375214400,             # 9998-02-20 12:00:00
+    'dst-gap-2024': 1710072000,        # 2024-03-10 12:00:00, the day US zones skip 02:00-03:00 (used with TZ=America/New_York)
 }
-QUICK_CLOCKS = ['leapday-2024', 'mid-2026']
+QUICK_CLOCKS = ['leapday-2024', 'mid-2026', 'dst-gap-2024']
+THOROUGH_TZS = ['UTC', 'America/New_York', 'Asia/Kolkata', 'Pacific/Chatham']
 
 
 class Inconclusive(Exception):
@@ -459,6 +461,17 @@ class Ctx:
     def clock_for_shard(self):
         cl = self.clocks()
         return cl[self.shard % len(cl)]
+
+    def env_for_shard(self):
+        """-> (clock name, epoch, process TZ): the hidden inputs of this shard"""
+        name, epoch = self.clock_for_shard()
+        if name == 'dst-gap-2024':
+            tz = 'America/New_York'
+        elif self.thorough():
+            tz = THOROUGH_TZS[(self.shard // len(self.clocks())) % len(THOROUGH_TZS)]
+        else:
+            tz = 'UTC'
+        return name, epoch, tz
 
     def driver(self, epoch=None, tz='UTC', **opts):
         if epoch is None:
